@@ -6,11 +6,18 @@ set -u
 P="$(readlink -f "$1")"; shift
 S="${SEED_SCRATCH:-/tmp/seed}repo"
 [ -d "$S/.git" ] || git clone -q /repo "$S"
-git -C "$S" fetch -q /repo HEAD && git -C "$S" checkout -q --detach FETCH_HEAD && git -C "$S" checkout -q -- . && git -C "$S" clean -fdq
-git -C "$S" apply "$P" || { echo "patch does not apply to HEAD"; exit 2; }
+git -C "$S" fetch -q /repo HEAD && git -C "$S" reset -q --hard FETCH_HEAD && git -C "$S" checkout -q --detach FETCH_HEAD && git -C "$S" clean -fdq
+if ! git -C "$S" apply "$P" 2>/dev/null; then
+  # the tree has moved on since the change was written: try a three-way merge of the patch
+  if ! git -C "$S" apply -3 "$P" >/dev/null 2>&1; then
+    git -C "$S" reset -q --hard FETCH_HEAD
+    echo "patch does not apply to HEAD"; exit 2
+  fi
+  git -C "$S" reset -q
+fi
 cd "$(dirname "$0")/.."
 for ID in "$@"; do
   R=$(VERIF_REPO=$S VERIF_BUILD="${SEED_SCRATCH:-/tmp/seed}build" ./check "$ID" --tier "${TIER:-quick}" 2>/dev/null | grep -E "^(VIOLATION|KNOWN-FINDING)" | cut -c1-600)
   echo "[$ID] ${R:-no alarm}"
 done
-git -C "$S" checkout -q -- . ; git -C "$S" clean -fdq
+git -C "$S" reset -q --hard FETCH_HEAD; git -C "$S" clean -fdq
